@@ -122,7 +122,7 @@ def special_index_history(rng, res, kind):
             elif r < 0.75:
                 db.cmd("checkpoint"); desc.append("checkpoint")
             else:
-                clean = rng.random() < 0.35
+                clean = rng.random() < (0.6 if kind == "u" else 0.3)
                 db.cmd("close" if clean else "crash", timeout=60)
                 if not clean and rng.random() < 0.5:
                     db.restart_process()
